@@ -4,3 +4,202 @@ use super::*;
 
 #[cfg(test)]
 include!("/verif/.build/playback/beatree_mod.inc");
+
+// ---- the value files account for every page: bounded native enumeration ----------------------------
+// C19 / C16 / C17 at the level of the files: after a history, reading `meta`, `bbn` and `ln` back with
+// the crate's own decoders (FreeList::read, ops::reconstruct, the node readers, overflow::delete as
+// the walker of a multi-page value), every page below the allocation frontier of a value file is
+// either referenced by the current tree exactly once or tracked by that file's free list, never both;
+// every key lies in exactly one leaf, inside the range its separators give it; and the keys and values
+// found in the leaves are the model's.
+#[cfg(test)]
+pub(crate) fn native_page_accounting(dir: &std::path::Path, model: &std::collections::BTreeMap<Key, Vec<u8>>) -> std::result::Result<(), String> {
+    use crate::beatree::allocator::{Store, StoreReader, FREELIST_EMPTY};
+    use crate::beatree::branch::node::get_key;
+    use crate::beatree::leaf::node::LeafNode;
+    use std::collections::{BTreeMap, BTreeSet};
+    let pool = PagePool::new();
+    // the four value-file fields of the meta page, at their documented offsets (store/meta.rs is private
+    // to `store`; K2 proves its codec)
+    struct ValueFileMeta { ln_freelist_pn: u32, ln_bump: u32, bbn_freelist_pn: u32, bbn_bump: u32 }
+    let meta = {
+        let raw = std::fs::read(dir.join("meta")).map_err(|e| e.to_string())?;
+        let f = |o: usize| u32::from_le_bytes(raw[o..o + 4].try_into().unwrap());
+        ValueFileMeta { ln_freelist_pn: f(8), ln_bump: f(12), bbn_freelist_pn: f(16), bbn_bump: f(20) }
+    };
+    let ln = Arc::new(File::open(dir.join("ln")).map_err(|e| e.to_string())?);
+    let bbn = Arc::new(File::open(dir.join("bbn")).map_err(|e| e.to_string())?);
+    let head = |pn: u32| Some(PageNumber(pn)).filter(|&x| x != FREELIST_EMPTY);
+    let ln_store = Store::open(&pool, ln.clone(), PageNumber(meta.ln_bump), head(meta.ln_freelist_pn)).map_err(|e| format!("ln free list unreadable: {}", e))?;
+    let bbn_store = Store::open(&pool, bbn.clone(), PageNumber(meta.bbn_bump), head(meta.bbn_freelist_pn)).map_err(|e| format!("bbn free list unreadable: {}", e))?;
+    let ln_free = ln_store.all_tracked_freelist_pages();
+    let bbn_free = bbn_store.all_tracked_freelist_pages();
+    let index = ops::reconstruct(bbn.clone(), &pool, &bbn_free, PageNumber(meta.bbn_bump)).map_err(|e| format!("branch index cannot be rebuilt: {}", e))?;
+    let reader = StoreReader::new(ln_store.clone(), pool.clone());
+    let mut bbn_used: BTreeSet<u32> = BTreeSet::new();
+    let mut ln_used: BTreeMap<u32, String> = BTreeMap::new();
+    let mut found: BTreeMap<Key, Vec<u8>> = BTreeMap::new();
+    let branches: Vec<(Key, Arc<branch::BranchNode>)> = index.into_iter().collect();
+    let mut prev_key: Option<Key> = None;
+    for (bi, (bsep, b)) in branches.iter().enumerate() {
+        let pn = b.bbn_pn();
+        if pn == 0 || pn >= meta.bbn_bump { return Err(format!("branch page {} outside 1..bbn_bump ({})", pn, meta.bbn_bump)); }
+        if bbn_free.contains(&PageNumber(pn)) { return Err(format!("branch page {} is in use and on the bbn free list", pn)); }
+        if !bbn_used.insert(pn) { return Err(format!("branch page {} used twice", pn)); }
+        let n = b.n() as usize;
+        if n == 0 { return Err(format!("branch page {} is empty", pn)); }
+        let next_branch_sep = branches.get(bi + 1).map(|x| x.0);
+        for i in 0..n {
+            let sep = get_key(b, i);
+            if i == 0 && sep != *bsep { return Err(format!("branch page {}: indexed under a key that is not its first separator", pn)); }
+            if i > 0 && get_key(b, i - 1) >= sep { return Err(format!("branch page {}: separators {} and {} do not ascend", pn, i - 1, i)); }
+            let upper = if i + 1 < n { Some(get_key(b, i + 1)) } else { next_branch_sep };
+            let leaf_pn = b.node_pointer(i);
+            if leaf_pn == 0 || leaf_pn >= meta.ln_bump { return Err(format!("leaf page {} outside 1..ln_bump ({})", leaf_pn, meta.ln_bump)); }
+            if ln_free.contains(&PageNumber(leaf_pn)) { return Err(format!("leaf page {} is in use and on the ln free list", leaf_pn)); }
+            if let Some(w) = ln_used.insert(leaf_pn, format!("leaf under branch page {}", pn)) { return Err(format!("ln page {} used twice (leaf and {})", leaf_pn, w)); }
+            let leaf = LeafNode { inner: reader.query(PageNumber(leaf_pn)) };
+            if leaf.n() == 0 { return Err(format!("leaf page {} is empty", leaf_pn)); }
+            for c in 0..leaf.n() {
+                let k = leaf.key(c);
+                if prev_key.map_or(false, |p| p >= k) { return Err(format!("keys do not ascend across leaves at leaf page {} cell {}", leaf_pn, c)); }
+                prev_key = Some(k);
+                if k < sep && !(bi == 0 && i == 0) { return Err(format!("leaf page {}: key below the leaf's separator", leaf_pn)); }
+                if upper.map_or(false, |u| k >= u) { return Err(format!("leaf page {}: key at or above the next separator", leaf_pn)); }
+                let (v, overflow) = leaf.value(c);
+                let value = if overflow {
+                    let mut pages = Vec::new();
+                    ops::overflow::delete(v, &reader, &mut pages);
+                    for p in &pages {
+                        if p.0 == 0 || p.0 >= meta.ln_bump { return Err(format!("overflow page {} outside 1..ln_bump", p.0)); }
+                        if ln_free.contains(p) { return Err(format!("overflow page {} is in use and on the ln free list", p.0)); }
+                        if let Some(w) = ln_used.insert(p.0, format!("overflow page of a value in leaf page {}", leaf_pn)) { return Err(format!("ln page {} used twice (overflow page and {})", p.0, w)); }
+                    }
+                    ops::overflow::read_blocking(v, &reader)
+                } else {
+                    v.to_vec()
+                };
+                found.insert(k, value);
+            }
+        }
+    }
+    for pn in 1..meta.ln_bump {
+        if !ln_used.contains_key(&pn) && !ln_free.contains(&PageNumber(pn)) { return Err(format!("ln page {} (below ln_bump {}) is neither in use nor on the free list", pn, meta.ln_bump)); }
+    }
+    for pn in 1..meta.bbn_bump {
+        if !bbn_used.contains(&pn) && !bbn_free.contains(&PageNumber(pn)) { return Err(format!("bbn page {} (below bbn_bump {}) is neither in use nor on the free list", pn, meta.bbn_bump)); }
+    }
+    for p in &ln_free { if p.0 == 0 || p.0 >= meta.ln_bump { return Err(format!("ln free list tracks page {} outside 1..ln_bump", p.0)); } }
+    for p in &bbn_free { if p.0 == 0 || p.0 >= meta.bbn_bump { return Err(format!("bbn free list tracks page {} outside 1..bbn_bump", p.0)); } }
+    if found != *model {
+        let missing = model.keys().filter(|k| !found.contains_key(*k)).count();
+        let extra = found.keys().filter(|k| !model.contains_key(*k)).count();
+        return Err(format!("the leaves hold {} keys, the model {}: {} missing, {} unexpected, {} with another value", found.len(), model.len(), missing, extra,
+            model.iter().filter(|(k, v)| found.get(*k).map_or(false, |f| f != *v)).count()));
+    }
+    Ok(())
+}
+
+/// Bounded native enumeration (not a proof): four scripted histories (clustered keys with 1000-byte
+/// values: fill / thin out / refill / delete everything / refill; multi-page values created, shrunk,
+/// grown and deleted; keys spread over several commit workers with merges across their ranges; a
+/// partly prefix-compressed branch node whose uncompressed part is rewritten) x 1 and 3 commit workers; after EVERY commit the
+/// store is closed, the files are checked by `native_page_accounting` and the store is reopened.
+#[cfg(test)]
+#[test]
+fn native_enum_store_page_accounting() {
+    use crate::hasher::Blake3Hasher;
+    use crate::{KeyReadWrite, Nomt, Options, SessionParams};
+    use std::collections::BTreeMap;
+    let key = |group: u8, i: u16| -> Key {
+        let mut k = [0u8; 32];
+        for b in k.iter_mut().take(6) { *b = group; }
+        k[6..8].copy_from_slice(&i.to_be_bytes());
+        k
+    };
+    // a history is a list of batches of (key, new value or delete)
+    let mut histories: Vec<Vec<Vec<(Key, Option<Vec<u8>>)>>> = Vec::new();
+    {
+        // fill, thin out, refill elsewhere, delete everything, refill a little
+        let mut h = Vec::new();
+        h.push((0..240u16).map(|i| (key(0x20, i), Some(vec![1u8; 900 + (i % 7) as usize * 30]))).collect::<Vec<_>>());
+        h.push((0..240u16).filter(|i| i % 3 != 0).map(|i| (key(0x20, i), None)).collect());
+        h.push((0..60u16).map(|i| (key(0x90, i), Some(vec![2u8; 1000]))).collect());
+        h.push((0..240u16).filter(|i| i % 3 == 0).map(|i| (key(0x20, i), None)).chain((0..60u16).map(|i| (key(0x90, i), None))).collect());
+        h.push((0..9u16).map(|i| (key(0x50, i), Some(vec![3u8; 700]))).collect());
+        h.push((0..40u16).map(|i| (key(0x50, 100 + i), Some(vec![4u8; 1200]))).collect());
+        histories.push(h);
+    }
+    {
+        // multi-page values created, overwritten by shorter / longer ones, deleted, next to small cells
+        let mut h = Vec::new();
+        h.push((0..30u16).map(|i| (key(0x33, i), Some(vec![5u8; if i % 5 == 0 { 9000 + i as usize * 100 } else { 300 }]))).collect::<Vec<_>>());
+        h.push((0..30u16).filter(|i| i % 10 == 0).map(|i| (key(0x33, i), Some(vec![6u8; 40]))).chain((0..30u16).filter(|i| i % 10 == 5).map(|i| (key(0x33, i), Some(vec![7u8; 30000])))).collect());
+        h.push((0..30u16).filter(|i| i % 2 == 1).map(|i| (key(0x33, i), None)).collect());
+        h.push((0..20u16).map(|i| (key(0x33, 200 + i), Some(vec![8u8; 5000]))).collect());
+        h.push((0..30u16).map(|i| (key(0x33, i), None)).chain((0..20u16).map(|i| (key(0x33, 200 + i), None))).collect());
+        histories.push(h);
+    }
+    {
+        // keys spread over the key space (several commit workers really get work), deletions that make
+        // neighbouring leaves merge across worker ranges
+        let spread = |i: u16| -> Key { let mut k = [0u8; 32]; k[0] = (i * 4) as u8; k[1] = (i >> 6) as u8; k[2] = 1; k };
+        let mut h = Vec::new();
+        h.push((0..64u16).map(|i| (spread(i), Some(vec![9u8; 1100]))).collect::<Vec<_>>());
+        h.push([21u16, 22, 23, 24, 40, 41, 42].iter().map(|i| (spread(*i), None)).collect());
+        h.push((0..64u16).filter(|i| i % 4 == 1).map(|i| (spread(i), Some(vec![10u8; 200]))).collect());
+        h.push((0..64u16).filter(|i| i % 4 != 2).map(|i| (spread(i), None)).collect());
+        h.push((0..64u16).filter(|i| i % 4 == 2).map(|i| (spread(i), None)).collect());
+        histories.push(h);
+    }
+    {
+        // a branch node that is only partly prefix-compressed: a long run of separators sharing 25 zero bytes with the all-zero first separator,
+        // then separators that share nothing with them (stored uncompressed behind the run); leaves
+        // under the uncompressed separators rewritten in place, most of the run deleted, a key that
+        // sorts between the two groups added
+        let clustered = |p: u8, i: u16| -> Key { let mut k = [p; 32]; k[25..27].copy_from_slice(&i.to_be_bytes()); for b in k.iter_mut().skip(27) { *b = 0; } k };
+        let mut h = Vec::new();
+        h.push((0..420u16).map(|i| (clustered(0x00, i), Some(vec![11u8; 1000]))).chain((0..24u16).map(|i| (clustered(0xEE, i), Some(vec![12u8; 1000])))).collect::<Vec<_>>());
+        h.push(vec![(clustered(0xEE, 1), Some(vec![13u8; 1000]))]);
+        h.push([4u16, 10, 16].iter().map(|i| (clustered(0xEE, *i), Some(vec![13u8; 1000]))).collect());
+        h.push((0..420u16).filter(|i| i % 8 != 0).map(|i| (clustered(0x00, i), None)).chain((0..24u16).map(|i| (clustered(0xEE, i), Some(vec![14u8; 1000])))).collect());
+        h.push(vec![({ let mut k = [0u8; 32]; k[0] = 0x40; k }, Some(vec![15u8; 500]))]);
+        h.push((0..24u16).filter(|i| i % 2 == 0).map(|i| (clustered(0xEE, i), Some(vec![16u8; 900]))).collect());
+        histories.push(h);
+    }
+    let mut commits = 0;
+    for (hi, history) in histories.iter().enumerate() {
+        for workers in [1usize, 3] {
+            let dir = tempfile::tempdir().unwrap();
+            let path = dir.path().join("db");
+            let open = || {
+                let mut o = Options::new();
+                o.path(&path);
+                o.commit_concurrency(workers);
+                o.bitbox_seed([5; 16]);
+                o.hashtable_buckets(4096);
+                Nomt::<Blake3Hasher>::open(o).unwrap()
+            };
+            let mut model: BTreeMap<Key, Vec<u8>> = BTreeMap::new();
+            let mut nomt = open();
+            for (bi, batch) in history.iter().enumerate() {
+                let session = nomt.begin_session(SessionParams::default());
+                let mut actuals: Vec<(Key, KeyReadWrite)> = batch.iter().map(|(k, v)| (*k, KeyReadWrite::Write(v.clone()))).collect();
+                actuals.sort_by_key(|(k, _)| *k);
+                for (k, _) in &actuals { session.warm_up(*k); }
+                session.finish(actuals).unwrap().commit(&nomt).unwrap();
+                for (k, v) in batch {
+                    match v { Some(v) => { model.insert(*k, v.clone()); } None => { model.remove(k); } }
+                }
+                drop(nomt);
+                if let Err(e) = native_page_accounting(&path, &model) {
+                    panic!("value files after commit {} of history {} with {} commit worker(s): {}", bi, hi, workers, e);
+                }
+                nomt = open();
+                commits += 1;
+            }
+            drop(nomt);
+        }
+    }
+    assert!(commits == 2 * (6 + 5 + 5 + 6));
+}
